@@ -25,9 +25,10 @@ theorem PI.move (h : PI c none fl T C s) (i : Nat) (hc : i ∈ s.cache) (st : St
     (hf : (f (s.th i)).buf = (s.th i).buf ++ [st] ∧ (f (s.th i)).qStmts = rest ∧
       (f (s.th i)).accepted = (s.th i).accepted ∧ (f (s.th i)).q.wpos = (s.th i).q.wpos ∧
       (f (s.th i)).q.wHist.headD 0 = (s.th i).q.wHist.headD 0 ∧ (f (s.th i)).q.rpos = (s.th i).q.rpos + st.size ∧
-      (f (s.th i)).valid = (s.th i).valid) :
+      (f (s.th i)).valid = (s.th i).valid ∧ (f (s.th i)).q.wcache = (s.th i).q.wcache)
+    (hne : (s.th i).q.wcache ≠ (s.th i).q.rpos) :
     PI c none fl (fun j => T j ∧ j ≠ i) C (s.setTh i f) := by
-  obtain ⟨f1, f2, f3, f4, f5, f6, f7⟩ := hf
+  obtain ⟨f1, f2, f3, f4, f5, f6, f7, f8⟩ := hf
   have hchain : chain (f (s.th i)) = chain (s.th i) := by
     simp only [chain, f1, f2, hq, List.append_assoc, List.singleton_append]
   have hcases : ∀ j, (s.setTh i f).th j = s.th j ∨ (j = i ∧ (s.setTh i f).th j = f (s.th i)) := by
@@ -52,9 +53,16 @@ theorem PI.move (h : PI c none fl T C s) (i : Nat) (hc : i ∈ s.cache) (st : St
       · rw [h1]; exact h.qc j
       · rw [h1]
         have q0 := h.qc j
-        refine ⟨by rw [f4, f5]; exact q0.wpos, ?_, ?_⟩
+        refine ⟨by rw [f4, f5]; exact q0.wpos, ?_, ?_, ?_⟩
         · rw [f5, f6, f2, q0.sum, hq]; simp; omega
         · rw [f2]; intro r hr; exact q0.pos r (by rw [hq]; exact List.mem_cons_of_mem _ hr)
+        · obtain ⟨k, hk, hw⟩ := q0.wc
+          cases k with
+          | zero => exfalso; apply hne; rw [hw]; simp
+          | succ k =>
+            rw [hq] at hk hw
+            refine ⟨k, by rw [f2]; simpa using hk, ?_⟩
+            rw [f8, f6, f2, hw]; simp; omega
     reg := fun j => by rw [hch]; exact h.reg j
     bufCache := fun j hjr => by
       rcases hcases j with h1 | ⟨rfl, h1⟩
@@ -125,7 +133,7 @@ theorem readQueue_succ (inj : BSt → Nat → BSt) (tsNow : Option Nat) (i fuel 
         else rqCommit (inj (rqMove s i st rest) 3) i := rfl
 
 theorem same_rqCommit (s : BSt) (i : Nat) : Same s (rqCommit s i) :=
-  Same.setTh s i _ (ThEq.ofQ _ _ (qCommitRead_fields _ _))
+  Same.setTh s i _ (ThEq.ofQ' _ _ (qCommitRead_fields _ _))
 
 theorem same_rqFin (s : BSt) (i total : Nat) : Same s (rqFin s i total) := by
   unfold rqFin; split
@@ -137,7 +145,8 @@ theorem same_rqPrep (s : BSt) (i : Nat) : Same s (rqPrep s i) :=
 
 /-- the body of one iteration after the record `st` was found eligible: decode, move -/
 theorem PI.rqMove (h : PI c none fl T C s) (i : Nat) (hc : i ∈ C) (st : Stmt) (rest : List Stmt)
-    (hq : (s.th i).qStmts = st :: rest) (hst : c.grace ≠ 0 → c.refreshAfterSample = true → st.ts ≤ fl) :
+    (hq : (s.th i).qStmts = st :: rest) (hst : c.grace ≠ 0 → c.refreshAfterSample = true → st.ts ≤ fl)
+    (hrd : (qPrepareRead s.cfg (s.th i).q).2 = true) :
     PI c none fl (fun j => T j ∧ j ≠ i) C (rqMove s i st rest) := by
   unfold PB.rqMove
   have hs1 : Same s (rqPrep s i) := same_rqPrep s i
@@ -147,12 +156,22 @@ theorem PI.rqMove (h : PI c none fl T C s) (i : Nat) (hc : i ∈ C) (st : Stmt) 
     · exact Same.ofCore rfl
     · exact Same.refl _
   have hs := hs1.trans hs2
-  generalize rqDecode (rqPrep s i) st = s2 at hs ⊢
+  have hlt : i < s.ths.length := by
+    apply Classical.byContradiction; intro hn
+    rw [th_lt_or_default s i (by omega)] at hq; cases hq
+  have hw : ((rqDecode (rqPrep s i) st).th i).q.wcache ≠ ((rqDecode (rqPrep s i) st).th i).q.rpos := by
+    have e1 : (rqDecode (rqPrep s i) st).th i = (rqPrep s i).th i := by
+      unfold rqDecode; split <;> rfl
+    rw [e1]
+    unfold rqPrep
+    rw [th_setTh_same s _ hlt]
+    exact qPrepareRead_true _ _ hrd
+  generalize rqDecode (rqPrep s i) st = s2 at hs hw ⊢
   have h2 : PI c none fl T C s2 := h.same hs
   have e := hs.th i
-  refine h2.move i (by rw [h2.cacheEq]; exact hc) st rest (by rw [e.q]; exact hq) hst _ ?_
+  refine h2.move i (by rw [h2.cacheEq]; exact hc) st rest (by rw [e.q]; exact hq) hst _ ?_ hw
   have f1 := qFinishRead_fields s2.cfg (s2.th i).q st.size
-  exact ⟨rfl, rfl, rfl, f1.1, congrArg (fun l => List.headD l 0) f1.2.1, f1.2.2, rfl⟩
+  exact ⟨rfl, rfl, rfl, f1.1, congrArg (fun l => List.headD l 0) f1.2.1, f1.2.2.1, rfl, f1.2.2.2⟩
 
 variable {inj : BSt → Nat → BSt}
 
@@ -168,7 +187,8 @@ theorem PI.readQueue (hi : InjOK inj) (tsNow : Option Nat)
     have hfin := fun tot => (h.same (same_rqPrep s i)).same (same_rqFin _ i tot)
     split
     · exact hfin total
-    · split
+    · rename_i hrd
+      split
       · exact hfin total
       · rename_i st rest hq
         split
@@ -176,7 +196,7 @@ theorem PI.readQueue (hi : InjOK inj) (tsNow : Option Nat)
         · rename_i hel
           have hst : c.grace ≠ 0 → c.refreshAfterSample = true → st.ts ≤ fl := by
             intro hg0 hr0; rw [htn hg0 hr0] at hel; simpa [rqLate] using hel
-          have h3 := (h.rqMove i hc st rest hq hst).weakenT (T' := T) (fun _ hj => hj.1)
+          have h3 := (h.rqMove i hc st rest hq hst (by simpa using hrd)).weakenT (T' := T) (fun _ hj => hj.1)
           have h4 := hi _ _ _ _ _ 3 h3
           split
           · exact ih T _ _ h4
@@ -212,7 +232,8 @@ theorem PI.readQueue_first (hi : InjOK inj) (tsNow : Option Nat)
     | cons y ys =>
       have := q0.pos y (by rw [hqq]; exact List.mem_cons_self ..)
       rw [hqq] at e2; simp at e2; omega
-  · split
+  · rename_i hrd
+    split
     · rename_i hq
       apply hfin
       intro _ _ _ st hst; rw [hq] at hst; cases hst
@@ -228,7 +249,7 @@ theorem PI.readQueue_first (hi : InjOK inj) (tsNow : Option Nat)
       · rename_i hel
         have hst : c.grace ≠ 0 → c.refreshAfterSample = true → st.ts ≤ fl := by
           intro hg0 hr0; rw [htn hg0 hr0] at hel; simpa [rqLate] using hel
-        have h3 := h.rqMove i hc st rest hq hst
+        have h3 := h.rqMove i hc st rest hq hst (by simpa using hrd)
         have h4 := hi _ _ _ _ _ 3 h3
         split
         · exact PI.readQueue hi tsNow htn i hc fuel _ _ _ h4
@@ -396,7 +417,8 @@ theorem PIo.pop (h : PIo c fl s)
       rcases hcases i with h1 | ⟨rfl, h1⟩
       · rw [h1]; exact h.qc i
       · rw [h1]; have q0 := h.qc i
-        exact ⟨by rw [f4]; exact q0.wpos, by rw [f4, f2]; exact q0.sum, by rw [f2]; exact q0.pos⟩
+        exact ⟨by rw [f4]; exact q0.wpos, by rw [f4, f2]; exact q0.sum, by rw [f2]; exact q0.pos,
+          by rw [f4, f2]; exact q0.wc⟩
     reg := fun i hne => by
       refine h.reg i ?_
       intro he
